@@ -21,7 +21,7 @@ RULE = (
     "pairwise incommensurate rational omega, H_1 a random Hermitian polynomial of degree <= 2 (drives, hopping, pairing c_i c_j + "
     "h.c., squeezing, number-dependent couplings, spin-boson couplings) over bosons, fermions, spins and ladder operators. Families: "
     "scalar (expression input, Fock-diagonal result), blocks (2x2 operator-valued matrix with subspace_indices), matrix_fd (2x2 "
-    "operator-valued matrix, fully diagonalised), mask (elimination mask given as operator powers incl. a symbolic power a**(k+2)). "
+    "operator-valued matrix, fully diagonalised), multiblock (3x3 operator-valued matrix in 2-3 blocks, optionally one block fully diagonalised), mask (elimination mask given as operator powers incl. a symbolic power a**(k+2)). "
     "Every order n <= 2-3 of the operator-valued H_tilde and U is denoted as a matrix on a truncated Fock space (R4) and compared, "
     "between low-lying Fock states (vacuum and first excited occupations), with the dense reference solver R1 run on the denoted "
     "input matrices with the keep-set derived from the selection (Fock-diagonal / same matrix index / mask -> occupation shifts); "
@@ -37,7 +37,7 @@ BUDGET = {"quick": dict(cases=150, seconds=80), "thorough": dict(cases=2400, sec
 CASE_TIMEOUT = 150
 MONITORS = {"product": False, "solvers": False}
 MONITOR_VERDICTS = ()
-FAMILIES = ["scalar", "scalar", "scalar_matrix1", "blocks", "matrix_fd", "mask"]
+FAMILIES = ["scalar", "scalar", "scalar_matrix1", "blocks", "matrix_fd", "mask", "multiblock", "multiblock"]
 
 
 def plan(tier, seed):
@@ -81,6 +81,7 @@ def run_case(spec):
     h1, deg = secondq.random_h1(rng, ops, max_terms=3)
     kdim = 1
     mask_shifts = None
+    multi_layout, multi_fd = None, ()
     with warnings.catch_warnings():
         warnings.simplefilter("ignore")
         try:
@@ -90,6 +91,30 @@ def run_case(spec):
             elif family == "scalar_matrix1":
                 outs = block_diagonalize([sympy.Matrix([[h0]]), sympy.Matrix([[h1]])])
                 H0b, H1b = [[h0]], [[h1]]
+            elif family == "multiblock":
+                # 3 matrix states in 2-3 blocks (layouts [0,1,2], [0,1,1], [0,0,1]), optionally one block fully diagonalised
+                kdim = 3
+                layout = [[0, 1, 2], [0, 1, 1], [0, 0, 1]][int(rng.integers(3))]
+                deltas = [secondq.R(0), secondq.R(int(rng.integers(1, 4)), 7) + secondq.R(1, 3), -secondq.R(int(rng.integers(1, 4)), 5) - secondq.R(1, 2)]
+                H0b = [[(h0 + deltas[i]) if i == j else 0 for j in range(3)] for i in range(3)]
+                lo, hi = secondq.gens_of(ops[0])
+                H1b = [[0] * 3 for _ in range(3)]
+                for i in range(3):
+                    for j in range(i + 1, 3):
+                        c = secondq.R(int(rng.integers(1, 4)), int(rng.integers(1, 3)))
+                        coup = c * [lo, lo + hi, hi][int(rng.integers(3))]
+                        H1b[i][j], H1b[j][i] = coup, Dagger(coup)
+                deg = 1
+                nblk = max(layout) + 1
+                multi_layout = layout
+                cand_fd = [b for b in range(nblk) if layout.count(b) >= 2]
+                multi_fd = (cand_fd[0],) if cand_fd and rng.random() < 0.6 else ()
+                kw = dict(subspace_indices=layout)
+                if multi_fd:
+                    kw["fully_diagonalize"] = multi_fd
+                outs = block_diagonalize([sympy.Matrix(H0b), sympy.Matrix(H1b)], **kw)
+                counters[f"multiblock_layout_{''.join(map(str, layout))}"] += 1
+                counters["multiblock_fd"] += int(bool(multi_fd))
             else:
                 kdim = 2
                 delta = secondq.R(int(rng.integers(1, 6)), 7) + secondq.R(1, 2)
@@ -141,6 +166,13 @@ def run_case(spec):
                 keep = np.eye(N, dtype=bool)
             elif family == "blocks":
                 keep = mi[:, None] == mi[None, :]
+            elif family == "multiblock":
+                blk = np.array(multi_layout)[mi]
+                keep = blk[:, None] == blk[None, :]
+                for b in multi_fd:
+                    inb = blk == b
+                    sub = np.outer(inb, inb)
+                    keep = np.where(sub, np.eye(N, dtype=bool), keep)  # fully diagonalised: only identical states kept
             else:
                 occ = M.occ[:, 0]
                 keep = np.ones((N, N), bool)
@@ -185,12 +217,16 @@ def run_case(spec):
                 if isinstance(d, str):
                     return np.eye(kdim * D, dtype=complex)
                 return d
+            layout_ = multi_layout if family == "multiblock" else list(range(nb))
+            members = [[q for q, b in enumerate(layout_) if b == blk_] for blk_ in range(nb)]
             for i in range(nb):
                 for j in range(nb):
                     d = secondq.denote(M, series[(i, j) + n], subs)
                     if d is None:
                         continue
-                    out[i * D:(i + 1) * D, j * D:(j + 1) * D] = np.eye(D) if isinstance(d, str) else d
+                    rows = np.concatenate([np.arange(q * D, (q + 1) * D) for q in members[i]])
+                    cols = np.concatenate([np.arange(q * D, (q + 1) * D) for q in members[j]])
+                    out[np.ix_(rows, cols)] = np.eye(len(rows)) if isinstance(d, str) else d
             return out
 
         lib = []
@@ -212,6 +248,14 @@ def run_case(spec):
                         f"{name} at order {n}: matrix elements between low Fock states differ from the matrix block diagonalisation by {err:.3e}; "
                         f"family={family}, ops={ops}, H_0={H0b}, H_1={H1b}"
                     )
+        # adjoint pairing and Hermiticity of the operator-valued outputs (C02 in the operator algebra), through the denotation
+        for n in orders:
+            Ud, Un, Hn = lib[2][n][np.ix_(sel, sel)], lib[1][n][np.ix_(sel, sel)], lib[0][n][np.ix_(sel, sel)]
+            if np.abs(Ud - Un.conj().T).max(initial=0) > 1e-7 * max(1.0, float(np.abs(Un).max(initial=0))):
+                raise Violation(f"U^dagger at order {n} is not the adjoint of U between low Fock states; family={family}, H_0={H0b}, H_1={H1b}")
+            if np.abs(Hn - Hn.conj().T).max(initial=0) > 1e-7 * max(1.0, float(np.abs(Hn).max(initial=0))):
+                raise Violation(f"H_tilde at order {n} is not Hermitian between low Fock states; family={family}, H_0={H0b}, H_1={H1b}")
+            counters["adjoint_pairings_checked"] += 1
         # operator identities through the denotation, on the low columns
         Hm = {(0,): mats[0], (1,): mats[1]}
         Z = np.zeros((kdim * D, kdim * D), complex)
@@ -239,7 +283,7 @@ def run_case(spec):
 
 def finalize(c, tier, evaluations, distinct):
     reasons = []
-    need = dict(matrix_elements_compared=2000, operator_identities_checked=200, family_scalar=20, family_blocks=8, family_matrix_fd=8, family_mask=8,
+    need = dict(matrix_elements_compared=2000, operator_identities_checked=200, family_scalar=20, family_blocks=8, family_matrix_fd=8, family_mask=8, family_multiblock=10, multiblock_fd=3,
                 stat_BosonOp=30, stat_FermionOp=15, stat_LadderOp=10, stat_SigmaMinus=10)
     for k, v in need.items():
         if c.get(k, 0) < v:
